@@ -586,10 +586,12 @@ def relocname(cfg=None, reopen_ok=False):
     c = cfg if cfg is not None else cfg_st(rr=st.sampled_from(['1.09', '1.10', '1.12']), level=st.sampled_from([1, 2, 3, 3]))
     D = add_dir(ns=st.sampled_from([7, 7, 1, 3]), rsz=st.integers(0, 3), sz=st.integers(0, 2))
 
-    def build(mine, rrm, chain, b, sr, deep, between, tail):
-        ops = [dict(mine, d=0, reuse=0, rrm=rrm)]
+    def build(mine, rrm, chain, b, sr, deep, between, tail, variant=0):
+        # variant 1: nobody has taken the names; the refused call is a directory at the eighth level whose Rock Ridge name is
+        # too long for a continuation area (refused on the relocation path, before or after the relocation directory is made?)
+        ops = [dict(mine, d=0, reuse=0, rrm=(0 if variant else rrm))]
         ops += [dict(o, d=(0 if k == 0 else -1), reuse=0, rrm=0) for k, o in enumerate(chain)]
-        ops.append(dict(b, row='add_directory/relocation-name-taken'))
+        ops.append(dict(b, row=('add_directory/rr-name-longer-than-a-block' if variant else 'add_directory/relocation-name-taken')))
         ops += between
         ops.append(sr)
         ops.append(dict(deep, d=7, reuse=0, rrm=0))        # pool of directories: root, the user's, the seven of the chain -> index 7 + 1 is the end of the chain
@@ -600,7 +602,7 @@ def relocname(cfg=None, reopen_ok=False):
         tail_choices += [reopen]
     return program(c, st.builds(build, D, st.sampled_from([1, 1, 2, 3]), st.lists(D, min_size=7, max_size=7), bad, set_reloc, D,
                                 st.lists(st.one_of(add_fp(d=st.just(0), length=SMALL_LEN), write, query), min_size=0, max_size=2),
-                                st.lists(st.one_of(*tail_choices), min_size=0, max_size=5)))
+                                st.lists(st.one_of(*tail_choices), min_size=0, max_size=5), st.sampled_from([0, 0, 1])))
 
 
 def reloctwins(cfg=None, reopen_ok=False):
